@@ -16,7 +16,8 @@ Compared per case (implementation vs `vm_compute` of the model on the same data)
     implementation must share one in the model (what the sign theorem needs); exact equality is
     recorded as a statistic
   * the prefactor the builder uses for every transition (private method; on the standard flags also
-    read back from the formulated model's components)
+    read back from the formulated model's components: on a fresh builder and on the same builder
+    after a history formulate(flags without sharing) -> flags back -> formulate())
   * the arguments of the two CG objects of formulate_isobar_cg_coefficients (canonical reactions)
   * data facts the theorems assume: qrules' parity_prefactor == P P1 P2 (-1)^(J-s1-s2); every LS
     alternative of a parity-constrained node is well-formed and has P = P1 P2 (-1)^L
@@ -194,7 +195,18 @@ def gen(seed: int, tier: str):
                     rec["pref"].append([fr.numerator, fr.denominator])
                 # on the standard flags and the original list: what formulate() really multiplies with
                 if vname == "orig" and (p, c, ls) == (False, True, False):
+                    # fresh builder, then the SAME builder after a model without sharing was formulated
+                    # (parent helicities in the names) and the flags were set back: a history
                     rec["observed"] = observed_prefactors(builder, ts)
+                    hb = Builder(reaction)   # a second builder whose FIRST model has no sharing
+                    if kind == "can":
+                        hb._naming = CanonicalAmplitudeNameGenerator(ts, insert_parent_helicities=True,
+                                                                     insert_child_helicities=True, insert_ls_combinations=False)
+                    else:
+                        hb._naming = HelicityAmplitudeNameGenerator(ts, insert_parent_helicities=True, insert_child_helicities=True)
+                    hb.formulate()
+                    hb._naming = naming
+                    rec["observed_after_history"] = observed_prefactors(hb, ts)
                 fl = "(mkFlags %s %s %s)" % tuple("true" if x else "false" for x in (p, c, ls))
                 evals.append((f"run_case {fl} {dname}", rec))
             # CG arguments and data facts (flag independent)
@@ -354,11 +366,12 @@ def compare(rec, val):
         idx = next(i for i, (a, b) in enumerate(zip(fp, rec["pref"])) if a != b)
         note = " (implementation equals the PRE-fix model prefactor_pinned here)" if [pinned[idx], 1] == rec["pref"][idx] else ""
         bad.append(f"prefactor of chain {rec['labels'][idx]!r}: model {prefs[idx]} impl {rec['pref'][idx]}{note}")
-    if rec.get("observed") is not None:
-        for idx, o in enumerate(rec["observed"]):
-            if o is not None and o != rec["pref"][idx]:
-                bad.append(f"prefactor in formulated model of chain {rec['labels'][idx]!r}: {o} but private method gives {rec['pref'][idx]}")
-                break
+    for field, how in (("observed", "fresh builder"), ("observed_after_history", "same builder after formulate() with parent helicities in the names")):
+        if rec.get(field) is not None:
+            for idx, o in enumerate(rec[field]):
+                if o is not None and o != [prefs[idx], 1]:
+                    bad.append(f"prefactor in formulated model ({how}) of chain {rec['labels'][idx]!r}: {o} but the model gives {prefs[idx]}")
+                    break
     return bad, stats
 
 
